@@ -281,7 +281,21 @@ pub fn gen_case(ch: &mut Chooser, which: &str) -> Case {
                 }
             };
             c.nontrivial = n >= 2;
-            c.expr = app(which, vec![q(needle), q(Datum::List(items, None))]);
+            if ch.chance(1, 5) {
+                // the needle is a freshly made pair / vector with the contents of one element: not the same object,
+                // so it is not found (memq and memv do not compare contents)
+                let mut with = items.clone();
+                let pos = ch.below(with.len() + 1);
+                let (elem, fresh) = if ch.chance(1, 2) {
+                    (Datum::List(vec![Datum::Int(1), Datum::Int(2)], None), app("list", vec![Expr::Int(1), Expr::Int(2)]))
+                } else {
+                    (Datum::Vector(vec![Datum::Int(1), Datum::Int(2)]), app("vector", vec![Expr::Int(1), Expr::Int(2)]))
+                };
+                with.insert(pos, elem);
+                c.expr = app(which, vec![fresh, q(Datum::List(with, None))]);
+            } else {
+                c.expr = app(which, vec![q(needle), q(Datum::List(items, None))]);
+            }
         }
         "equal?" => {
             let a = data(ch, 3, true);
